@@ -6,7 +6,7 @@ import treegen
 from impl import trees, treeoutput, quiet, clone
 
 ID = "C19"
-MODULE = ['TT.Props.C19', 'TT.Props.C19More', 'TT.Props.C19More2']
+MODULE = ['TT.Props.C19', 'TT.Props.C19More', 'TT.Props.C19More2', 'TT.Props.C19More3']
 RULE = ("all tree shapes up to 4 (quick) / 5 (thorough) tokens with shuffled child storage + random well-formed "
         "trees of 1..10 tokens (discontinuous, unary nodes, material directly under the root), every node and every "
         "ordered pair of nodes; non-trivial: at least one constituent below the root")
